@@ -269,6 +269,37 @@ def as_fractions(pairs):
     return {k: Fraction(v).limit_denominator(1000) for k, v in pairs}
 
 
+def canonical(pairs):
+    """every exponent is held exactly as the library holds the printed value: an int, or the float of the fraction
+    (exponents that carry rounding noise from earlier arithmetic are outside the exact-use check)"""
+    for _, v in pairs:
+        fr = Fraction(v).limit_denominator(1000)
+        if isinstance(v, bool) or not isinstance(v, (int, float)) or (float(fr) != v and fr != v):
+            return False
+    return True
+
+
+def use_check(a, b, printed, what):
+    """the copy (b, whose unit was assigned from the printed unit of a) must be usable as the SAME unit: source +/- copy
+    give no unit-mismatch warning and keep the unit, source / copy is unit-less"""
+    import warnings
+    with warnings.catch_warnings(record=True) as caught:
+        warnings.simplefilter("always")
+        total, diff = a + b, a - b
+        quotient = a / b
+    mismatch = [str(w.message) for w in caught if "mismatching units" in str(w.message)]
+    for name, r in (("sum", total), ("difference", diff)):
+        if mismatch or r.unit != printed:
+            return "{}: the {} of the quantity and a second one that was assigned its printed unit {!r} has unit {!r}{} -- the " \
+                   "unit read back is not treated as the same unit (exponents held: {} vs {})".format(
+                       what, name, printed, r.unit, " with the warning '{}'".format(mismatch[0][:60]) if mismatch else "",
+                       [repr(v) for v in a._unit.values()], [repr(v) for v in b._unit.values()])
+    if quotient.unit != "":
+        return "{}: the quotient of the quantity and a second one that was assigned its printed unit {!r} has unit {!r}".format(
+            what, printed, quotient.unit)
+    return None
+
+
 def judge_map(pairs):
     """the property on one exponent map (given as it would be held by the library): None or what fails"""
     import qexpy as q
@@ -280,7 +311,7 @@ def judge_map(pairs):
             a = q.Measurement(1.0, 0.1)
             a._unit = OrderedDict(pairs)
             printed = a.unit
-            b = q.Measurement(2.0, 0.1)
+            b = q.Measurement(1.0 if st == "FRACTION" else 2.0, 0.1)   # equal central value in a distinct object / another value
             try:
                 b.unit = printed
             except Exception as e:  # noqa
@@ -296,6 +327,41 @@ def judge_map(pairs):
                     st.lower(), U._show(want), printed, "nothing (not a sentence)" if ref is None else U._show(U.nonzero(ref)))
             if printed != s:
                 return "style {}: a.unit is {!r} but construct_unit_string gives {!r}".format(st.lower(), printed, s)
+            if canonical(pairs):
+                why = use_check(a, b, printed, "style {}: the unit {}".format(st.lower(), U._show(want)))
+                if why:
+                    return why
+        finally:
+            q.set_unit_style(q.UnitStyle.EXPONENTS)
+    return None
+
+
+def check_quantity(y, want, label):
+    """the unit of the quantity y (expected exponents want) prints, is accepted back, parses to the same exponents and
+    is usable as the same unit, in both styles; y is READ (value, error, text) before it is used as an operand"""
+    import qexpy as q
+    want = U.nonzero(want)
+    if any(v.denominator > 10 for v in want.values()) or not want:
+        return None
+    for st in STYLES:
+        q.set_unit_style(_style(st))
+        try:
+            _ = (y.value, y.error, str(y))
+            printed = y.unit
+            b = q.Measurement(float(y.value), 0.1)          # equal central value, distinct object
+            try:
+                b.unit = printed
+            except Exception as e:  # noqa
+                return "style {}: the unit of {} prints as {!r}, which is rejected on assignment ({})".format(
+                    st.lower(), label, printed, type(e).__name__)
+            got = U.nonzero(as_fractions(b._unit.items()))
+            if got != want:
+                return "style {}: the unit of {} prints as {!r} and parses back to {} instead of {}".format(
+                    st.lower(), label, printed, U._show(got), U._show(want))
+            if canonical(list(y._unit.items())):
+                why = use_check(y, b, printed, "style {}: the unit of {}".format(st.lower(), label))
+                if why:
+                    return why
         finally:
             q.set_unit_style(q.UnitStyle.EXPONENTS)
     return None
@@ -304,6 +370,8 @@ def judge_map(pairs):
 def judge_api(pairs, how):
     """units produced through arithmetic, and the array edits"""
     import qexpy as q
+    if how == "paths":
+        return judge_paths(pairs)
     q.set_unit_style(q.UnitStyle.EXPONENTS)
     us = exponents_string(pairs)
     want = as_fractions(pairs)
@@ -311,6 +379,18 @@ def judge_api(pairs, how):
         x = q.Measurement(4.0, 0.2, unit=us)
     except Exception as e:  # noqa
         return "creating a Measurement with unit {!r} raised {}".format(us, type(e).__name__)
+    if how == "powtypes":
+        if any(v.denominator != 1 or abs(v) > 4 for v in want.values()):
+            return None
+        for tname, p, fr in power_types():
+            try:
+                y = x ** p
+            except Exception:  # noqa
+                continue
+            why = check_quantity(y, {k: v * fr for k, v in want.items()}, "x ** {}({!r}), x in {!r},".format(tname, p, us))
+            if why:
+                return why
+        return None
     try:
         if how == "sqrt":
             y, want = q.sqrt(x), {k: v / 2 for k, v in want.items()}
@@ -330,34 +410,87 @@ def judge_api(pairs, how):
     want = U.nonzero(want)
     if any(v.denominator > 10 for v in want.values()) or not want:
         return None
+    why = check_quantity(y, want, "{}(x), x in {!r},".format(how, us))
+    if why:
+        return why
+    if how == "same":
+        for st in STYLES:
+            for edit in (["append"], ["insert", 1], ["setitem", 0]):
+                before, after = run_edit(st, us, edit)
+                if before is None:
+                    return "MeasurementArray(unit={!r}) raises".format(us)
+                if after is None:
+                    return "style {}: MeasurementArray(unit={!r}).{} raises".format(st.lower(), us, edit[0])
+                for a in after:
+                    if U.nonzero(as_fractions(a)) != want:
+                        return "style {}: after {} on MeasurementArray(unit={!r}) an element has unit {}".format(
+                            st.lower(), edit[0], us, U._show(U.nonzero(as_fractions(a))))
+    return None
+
+
+def _close(d, want):
+    try:
+        return U.nonzero(as_fractions(d.items())) == want and all(isinstance(k, str) for k in d)
+    except Exception:  # noqa
+        return False
+
+
+def judge_paths(pairs):
+    """the printed unit handed back through EVERY public path, on objects that already carry another unit (read, modify,
+    read again on the SAME object), with two arrays alive at once"""
+    import qexpy as q
+    want = U.nonzero(as_fractions(pairs))
     for st in STYLES:
+        printed = impl_print(pairs, st)
         q.set_unit_style(_style(st))
         try:
-            printed = y.unit
-            b = q.Measurement(1.0, 0.1)
+            where = "style {}: the unit {} printed as {!r}".format(st.lower(), U._show(want), printed)
+            step = "Measurement(unit=...)"
             try:
-                b.unit = printed
+                if not _close(q.Measurement(1.0, 0.1, unit=printed)._unit, want):
+                    return "{}: {} gives other exponents".format(where, step)
+                step = "unit setter on a quantity that already has a unit"
+                m = q.Measurement(5.0, 0.5, unit="kg*zq^2")
+                r0 = m.unit
+                m.unit = printed
+                if m.unit != printed or not _close(m._unit, want):
+                    return "{}: after assigning it, the quantity reads {!r}".format(where, m.unit)
+                m.unit = r0
+                if m.unit != r0:
+                    return "{}: assigning the old unit {!r} back gives {!r}".format(where, r0, m.unit)
+                step = "MeasurementArray(unit=...)"
+                arr = q.MeasurementArray([1.0, 1.0, 3.0], 0.5, unit=printed, name="arr")
+                if arr.unit != printed or not all(_close(x._unit, want) for x in arr):
+                    return "{}: MeasurementArray(unit=...) reads {!r}".format(where, arr.unit)
+                step = "unit setter of a MeasurementArray"
+                arr2 = q.MeasurementArray([1.0, 2.0], 0.5, unit="kg", name="arr")
+                arr2.unit = printed
+                if arr2.unit != printed or not all(_close(x._unit, want) for x in arr2):
+                    return "{}: after arr.unit = ..., the array reads {!r}".format(where, arr2.unit)
+                step = "append on the first of two arrays"
+                arr3 = arr.append(4.0)
+                if arr3.unit != printed or not all(_close(x._unit, want) for x in arr3) or arr2.unit != printed:
+                    return "{}: after append the arrays read {!r} and {!r}".format(where, arr3.unit, arr2.unit)
+                step = "XYDataSet(xunit=..., yunit=...)"
+                d = q.XYDataSet([1.0, 2.0, 3.0], [2.0, 3.0, 4.0], xunit=printed, yunit="kg")
+                d.yunit = printed
+                if d.xunit != printed or d.yunit != printed or not all(_close(x._unit, want) for x in d.ydata):
+                    return "{}: the data set reads xunit {!r}, yunit {!r}".format(where, d.xunit, d.yunit)
             except Exception as e:  # noqa
-                return "style {}: the unit of {}(x), x in {!r}, prints as {!r}, which is rejected on assignment ({})".format(
-                    st.lower(), how, us, printed, type(e).__name__)
-            got = U.nonzero(as_fractions(b._unit.items()))
-            if got != want:
-                return "style {}: the unit of {}(x), x in {!r}, prints as {!r} and parses back to {} instead of {}".format(
-                    st.lower(), how, us, printed, U._show(got), U._show(want))
-            if how == "same":
-                for edit in (["append"], ["insert", 1], ["setitem", 0]):
-                    before, after = run_edit(st, us, edit)
-                    if before is None:
-                        return "MeasurementArray(unit={!r}) raises".format(us)
-                    if after is None:
-                        return "style {}: MeasurementArray(unit={!r}).{} raises".format(st.lower(), us, edit[0])
-                    for a in after:
-                        if U.nonzero(as_fractions(a)) != want:
-                            return "style {}: after {} on MeasurementArray(unit={!r}) an element has unit {}".format(
-                                st.lower(), edit[0], us, U._show(U.nonzero(as_fractions(a))))
+                return "{}: {} raises {}: {}".format(where, step, type(e).__name__, str(e)[:80])
         finally:
             q.set_unit_style(q.UnitStyle.EXPONENTS)
     return None
+
+
+def power_types():
+    import numpy as np
+    return [("int", 2, Fraction(2)), ("float", 2.0, Fraction(2)), ("bool", True, Fraction(1)), ("np.int64", np.int64(2), Fraction(2)),
+            ("np.int32", np.int32(-1), Fraction(-1)), ("np.int8", np.int8(3), Fraction(3)), ("np.float64", np.float64(0.5), Fraction(1, 2)),
+            ("np.float32", np.float32(0.5), Fraction(1, 2)), ("np.float16", np.float16(-0.5), Fraction(-1, 2)),
+            ("Fraction", Fraction(1, 2), Fraction(1, 2)), ("Fraction", Fraction(1, 3), Fraction(1, 3)),
+            ("np.float64", np.float64(1 / 3), Fraction(1, 3)), ("float", 0.2, Fraction(1, 5)), ("int", -1, Fraction(-1)),
+            ("int", 10, Fraction(10)), ("float", 1.0, Fraction(1))]
 
 
 def in_domain(pairs):
@@ -388,8 +521,7 @@ def judge_one(kind, case):
 def judge_case(kind, case):
     """one unit map (kind map / api), or a session: several of them printed one after the other in ONE fresh library
     state, the last one judged (state the library keeps between calls thereby becomes part of the input)"""
-    core.fresh_impl()
-    U.clear_global_state()
+    core.fresh_impl()            # a fresh library state; deliberately NOT followed by any reset / clear call
     if "session" in case:
         why = None
         for k, c in case["session"]:
@@ -464,9 +596,13 @@ def search(ctx, suspects, budget):
         k += 1
         m = random_map(rng)
         examine("map", m)
-        how = rng.choice(["sqrt", "pow", "quotient", "same", "same"])
+        how = rng.choice(["sqrt", "pow", "quotient", "same", "same", "paths", "paths", "powtypes"])
         ints = [(s, int(v) if float(v).is_integer() else v) for s, v in m]
         examine("api", ints, how)
+        if k % 5 == 0 and journal:
+            # the same map again after others were printed (state kept between calls must not change the outcome)
+            kind0, case0 = rng.choice(journal[-40:])
+            examine(kind0, [(a, b) for a, b in case0["map"]], case0.get("how"))
     ctx.notes.append("oracle: {} enumerated maps, {} random maps with arithmetic / array edits, both styles".format(n, k))
     U.clear_global_state()
     return out[:5]
